@@ -539,6 +539,34 @@ void mon_inbound(const Run& run, const Ix&, Verdicts& v, vu::Result& res) {
         if (final_t < t) return false;
         return true;
     };
+    // (a0) a well-formed PUBLISH / PUBREL of a conformant broker is never answered with "malformed packet" / "protocol error"
+    for (auto& k : h.cpkts) {
+        if (k.dec.status != ref::Status::ok || k.dec.pkt.type != ref::DISCONNECT || (k.dec.pkt.rc != 0x81 && k.dec.pkt.rc != 0x82)) continue;
+        if (conn_hostile(k.conn)) continue;
+        bool by_user = false;
+        for (auto& o : h.ops) if (o.kind == OpKind::disconnect && o.disc_rc == k.dec.pkt.rc && o.seq_init < k.seq) by_user = true;
+        if (by_user) continue;
+        const BPacket* last = nullptr; uint32_t limit = 0;
+        for (auto& b : h.bpkts) if (b.conn == k.conn && b.delivered_t >= 0 && b.delivered_seq < k.seq && (!last || b.delivered_seq > last->delivered_seq)) last = &b;
+        for (auto& q : h.cpkts) if (q.conn == k.conn && q.dec.status == ref::Status::ok && q.dec.pkt.type == ref::CONNECT) for (auto& x : q.dec.pkt.props) if (x.id == 0x27) limit = (uint32_t)x.num;
+        // the rejected packet is the last one read completely or, when the header alone made the client give up, the one in transit
+        const BPacket* next = nullptr;
+        for (auto& b : h.bpkts) if (b.conn == k.conn && b.seq < k.seq && (b.delivered_t < 0 || b.delivered_seq > k.seq) && (!next || b.seq < next->seq)) next = &b;
+        if (next && (next->pkt.type == ref::PUBLISH || next->pkt.type == ref::PUBREL) && next->wellformed) last = next;
+        if (!last || (last->pkt.type != ref::PUBLISH && last->pkt.type != ref::PUBREL)) continue;
+        bool over = false;    // anything above what the client said it accepts: not a conformant stream
+        for (auto& b : h.bpkts) if (b.conn == k.conn && b.seq < k.seq && b.raw.size() > (limit ? limit : 65536u)) over = true;
+        if (over) continue;
+        std::string rs; for (auto& x : k.dec.pkt.props) if (x.id == 0x1F) rs = x.s1;
+        v.add("C04", std::string("C04:conformant-") + ref::type_name(last->pkt.type) + "-rejected-as-malformed", "connection " + std::to_string(k.conn) + ": the client answered a well-formed " + ref::type_name(last->pkt.type) +
+              " (" + std::to_string(last->raw.size()) + " bytes, QoS " + std::to_string(last->pkt.qos) + ", client's Maximum Packet Size " + (limit ? std::to_string(limit) : std::string("unset")) + ") with DISCONNECT 0x" + vu::hex(std::string(1, char(k.dec.pkt.rc))) + " \"" + rs + "\"");
+    }
+    for (auto& b : h.bpkts) if (b.delivered_t >= 0 && b.pkt.type == ref::PUBLISH && b.wellformed && b.kind == BKind::normal) {
+        uint32_t limit = 0;
+        for (auto& q : h.cpkts) if (q.conn == b.conn && q.dec.status == ref::Status::ok && q.dec.pkt.type == ref::CONNECT) for (auto& x : q.dec.pkt.props) if (x.id == 0x27) limit = (uint32_t)x.num;
+        if (limit && b.raw.size() == limit) res.count("inbound_publishes_exactly_at_client_limit");
+        else if (limit && b.raw.size() + 5 >= limit) res.count("inbound_publishes_just_below_client_limit");
+    }
     // (a) every delivered PUBLISH / PUBREL is answered on a connection that stays healthy
     for (auto& b : h.bpkts) {
         if (b.delivered_t < 0 || !b.wellformed || b.kind == BKind::hostile || b.kind == BKind::spurious) continue;
